@@ -520,7 +520,7 @@ func ruleDFCOVER(c *Ctx, r *Report) {
 	// the node not being a leaf of any of the three kinds
 	paths, _ := c.enumPaths(pt.Wrapper, 200)
 	ops := c.operatorConsts()
-	wrapsSomething := false
+	wrapsSomething, unscoped := false, false
 	for _, p := range paths {
 		if p.Ret == nil || len(p.Ret.Results) != 1 {
 			continue
@@ -529,6 +529,21 @@ func ruleDFCOVER(c *Ctx, r *Report) {
 		if res != pt.Wrapper.Params[0] {
 			if call, ok := res.(*ssa.Call); ok && call.Call.StaticCallee() != nil {
 				wrapsSomething = true
+				// the scoping is applied only when a field is configured
+				fieldSet := false
+				for _, a := range p.Atoms {
+					if a.Kind == "cmp" && a.Subj == "$1" && a.Op == "!=" && a.Val == `""` {
+						fieldSet = true
+					}
+					if a.Kind == "len" && a.Subj == "$1" && (a.Op == ">" && a.N >= 0 || a.Op == ">=" && a.N >= 1 || a.Op == "!=" && a.N == 0) {
+						fieldSet = true
+					}
+				}
+				if fieldSet {
+					r.ok(rule, "wrapper|only-with-field", c.instrPos(p.Ret), "scoping applied under field != \"\"")
+				} else {
+					r.bad(rule, "wrapper|only-with-field", c.instrPos(p.Ret), fmt.Sprintf("%s scopes a term on a path that has not established that a default field is configured: without the option bare terms become `\"\":term`, so the tree differs from the option-free tree by more than the scoping", fnName(pt.Wrapper)))
+				}
 				// DF-COLUMN: built through the public Equals constructor with expr.Column(field)
 				bops := c.ctorOperator(call.Call.StaticCallee())
 				if !(len(bops) == 1 && bops[0] == "expr.Equals") {
@@ -577,8 +592,9 @@ func ruleDFCOVER(c *Ctx, r *Report) {
 				left = append(left, leaf)
 			}
 		}
-		if len(left) > 0 {
-			r.bad(rule, "wrapper|leaf-kinds", c.instrPos(p.Ret), fmt.Sprintf("%s returns a bare leaf of kind %v unscoped although a default field is set (only some leaf kinds are wrapped)", fnName(pt.Wrapper), left))
+		for _, kind := range left {
+			unscoped = true
+			r.bad(rule, "wrapper|leaf-kind|"+kind, c.instrPos(p.Ret), fmt.Sprintf("%s returns a bare leaf of kind %s unscoped although a default field is set", fnName(pt.Wrapper), kind))
 		}
 	}
 	// every value the wrapper can return (all returns, loop-independent) is its argument or
@@ -623,7 +639,7 @@ func ruleDFCOVER(c *Ctx, r *Report) {
 	}
 	if !wrapsSomething {
 		r.bad(rule, "wrapper|wraps", c.pos(pt.Wrapper.Pos()), "the default-field wrapper never wraps anything")
-	} else if !r.seenKeys[string(Violated)+"\x00"+rule+"|wrapper|leaf-kinds"] && !r.seenKeys[string(Known)+"\x00"+rule+"|wrapper|leaf-kinds"] {
+	} else if !unscoped {
 		r.ok(rule, "wrapper|leaf-kinds", c.pos(pt.Wrapper.Pos()), "all leaf kinds wrapped when a field is set")
 	}
 }
